@@ -147,7 +147,12 @@ void drive(RecordSink& s, const Field& f, Gen& g, const Effort& ef, bool single,
       Z p = f.primes[f.primes.size() - 1 - i];
       for (Z v : {p, Z(P / p), Z(P - p)}) if (v < P && std::find(B.begin(), B.end(), v) == B.end()) B.push_back(v);
     }
-  std::vector<Z> O = (ef.light && B.size() > 9) ? std::vector<Z>(B.begin(), B.begin() + 9) : B;
+  std::vector<Z> O = B;
+  if (ef.light) {  // 0, 1, (P-1)/2, P-1 and, in a multi-field, one zero divisor
+    O.clear();
+    for (std::size_t i : {std::size_t(0), std::size_t(1), std::size_t(3), std::size_t(6), std::size_t(7)}) if (i < B.size()) O.push_back(B[i]);
+    if (B.size() < 7) O = B;
+  }
   for (int i = 0; i < ef.rnd_ops; ++i) O.push_back(g.below(P));
   Plan base;
   base.lo = f.lo; base.hi = f.hi; base.P = P;
@@ -284,11 +289,17 @@ int main(int argc, char** argv) {
     }
   } else if (job == "multi") {
     // documented domain of Multi_field_operators_with_small_characteristics: P^2 fits an unsigned int
-    std::vector<std::pair<long, long>> small16 = {{2, 13}, {31, 41}, {211, 223}, {7, 17}, {13, 19}, {251, 251}, {65521, 65521}, {4, 6}};
+    const bool lightrun = ef.light;
+    std::vector<std::pair<long, long>> small16 = {{2, 13}, {31, 41}, {211, 223}, {251, 251}, {65521, 65521}, {4, 6}};
     // product fits an unsigned int
-    std::vector<std::pair<long, long>> small32 = {{2, 23}, {3, 29}, {5, 23}, {2, 13}, {101, 109}, {1000, 1030}, {65500, 65530}, {65521, 65521}, {24, 30}};
-    std::vector<std::pair<long, long>> gmp = {{2, 100}, {5, 13}, {2, 53}, {101, 199}, {65300, 65535}, {2, 2}, {90, 100}};
-    for (int i = 0; i < (std::string(argv[4]) == "heavy" ? 12 : 3); ++i) {  // seeded random intervals
+    std::vector<std::pair<long, long>> small32 = {{2, 23}, {3, 29}, {101, 109}, {65500, 65530}, {24, 30}};
+    std::vector<std::pair<long, long>> gmp = {{2, 100}, {5, 13}, {65300, 65535}, {2, 2}};
+    if (!lightrun) {
+      for (auto iv : {std::pair<long, long>{7, 17}, {13, 19}}) small16.push_back(iv);
+      for (auto iv : {std::pair<long, long>{5, 23}, {2, 13}, {1000, 1030}, {65521, 65521}}) small32.push_back(iv);
+      for (auto iv : {std::pair<long, long>{2, 53}, {101, 199}, {90, 100}}) gmp.push_back(iv);
+    }
+    for (int i = 0; i < (std::string(argv[4]) == "heavy" ? 12 : lightrun ? 1 : 4); ++i) {  // seeded random intervals
       long lo = 2 + static_cast<long>(g.rng() % 300), w = 1 + static_cast<long>(g.rng() % 120);
       if (field_of(lo, lo + w).primes.empty()) continue;
       gmp.emplace_back(lo, lo + w);
@@ -326,7 +337,8 @@ int main(int argc, char** argv) {
 #else
   if (job == "tmpl") {
     Effort e = ef;
-#define ZP(p) { Field f = field_of(p, p); record_elem<TrZp<p>>(tr, f, g, e, true, false, evals); }
+    Effort ez = ef.light ? effort_of("normal") : ef;
+#define ZP(p) { Field f = field_of(p, p); record_elem<TrZp<p>>(tr, f, g, ez, true, false, evals); }
     ZP(2) ZP(3) ZP(251) ZP(257) ZP(32749) ZP(46337) ZP(46349) ZP(65519) ZP(65521)
 #define SM(a, b) { Field f = field_of(a, b); record_elem<TrSmall<a, b>>(tr, f, g, e, false, true, evals); }
     SM(2, 23) SM(3, 29) SM(31, 41) SM(2, 19) SM(17, 31) SM(65521, 65521) SM(24, 30)
